@@ -50,10 +50,14 @@ add(Contract(P + 'compile_clause_head_variable_arguments', 'fn', [('self', 'CSel
              ensures=['(= {result} (aliases {args} (talen {args})))'],
              loops={0: LoopSpec(['(= {code} (aliases {args} {k}))'])}))
 
+# a term that is compiled without CompilerError fits: the code's `brackets` argument counts every bracket the emitted constructor
+# calls open around a sub-term (spec `fits`); element-wise over an argument list: `fitsl` (the comprehension lift states it per element)
 add(Contract(P + 'compile_expression', 'fn', [('self', 'CSelf'), ('expr', 'TA'), ('brackets', 'Opt:Int:0')], ret='CE',
-             ensures=['(= {result} (cexpr {expr}))'], raises={'CompilerError': None}, maps='cexprl'))
+             ensures=['(= {result} (cexpr {expr}))', '(fits {expr} {brackets})'], raises={'CompilerError': None}, maps='cexprl',
+             ghost={'maps_ensures': ['(fitsl {l} {arg1})']}))
 add(Contract(P + 'compile_list', 'fn', [('self', 'CSelf'), ('expr', 'TA:TAListT'), ('brackets', 'Opt:Int:0')], ret='CE',
-             ensures=['(= {result} (cexpr {expr}))'], raises={'CompilerError': None}))
+             requires=['(<= {brackets} 180)'],       # compile_expression calls it behind its own guard
+             ensures=['(= {result} (cexpr {expr}))', '(fits {expr} {brackets})'], raises={'CompilerError': None}))
 add(Contract(P + 'compile_unification', 'fn', [('self', 'CSelf'), ('var', 'Str'), ('val', 'TA'), ('code', 'Code')], ret='Code',
              ensures=['(= {result} (ccons (SUnify {var} (cexpr {val}) {code}) cnil))'], raises={'CompilerError': None}))
 
